@@ -176,6 +176,8 @@ impl Validator<'_> {
         // Used to check the absence of associativity attributes at the minimum level.
         let mut min_lvl = u32::MAX;
         let mut min_prec_ann: Option<&Attribute> = None;
+        // The level in force for the current alternative (own or inherited).
+        let mut cur_lvl: Option<u32> = None;
 
         // Check that at least the first alternative has a precedence attribute
         alternatives
@@ -206,13 +208,7 @@ impl Validator<'_> {
                 match attr_prec.get_arg_equal() {
                     Some((name, value)) if name == &Atom::from(precedence::LVL_ARG) => {
                         if let Ok(lvl) = value.parse::<u32>() {
-                            if lvl < min_lvl {
-                                min_lvl = lvl;
-                                min_prec_ann = attr_assoc_opt;
-                            }
-                            else if lvl == min_lvl && min_prec_ann.is_none() && attr_assoc_opt.is_some() {
-                                min_prec_ann = attr_assoc_opt;
-                            }
+                            cur_lvl = Some(lvl);
                         }
                         else {
                             return_err!(attr_prec.id_span, "could not parse the precedence level `{}`, expected integer", value);
@@ -220,6 +216,17 @@ impl Validator<'_> {
                     }
                     Some((name, _)) => return_err!(attr_prec.id_span, "invalid argument `{}` for precedence attribute, expected `{}`", name, precedence::LVL_ARG),
                     None => return_err!(attr_prec.id_span, "missing argument for precedence attribute, expected `{}`", precedence::LVL_ARG),
+                }
+            }
+
+            // An alternative without its own precedence attribute inherits the level of the
+            // previous one, so its associativity attribute counts for that level too.
+            if let Some(lvl) = cur_lvl {
+                if lvl < min_lvl {
+                    min_lvl = lvl;
+                    min_prec_ann = attr_assoc_opt;
+                } else if lvl == min_lvl && min_prec_ann.is_none() && attr_assoc_opt.is_some() {
+                    min_prec_ann = attr_assoc_opt;
                 }
             }
 
